@@ -111,6 +111,35 @@ def run(res, tier, seed=13):
             res.count("metamodule_mapping_loads")
         except Exception:
             res.count("metamodule_mapping_loads_raised")
+        # the mappings live on: units of the embedded module change, slots are pointed at other controllers (other kinds of
+        # value type), hidden and shown again, taken away - with the mappings re-derived after every step
+        target = emb.modules[1]
+        try:
+            for c in t.controllers:
+                if c.kind == "dependent":
+                    for unit in c.ranges:
+                        setattr(target, c.depends_on, getattr(cls, c.enum)[unit])
+                        mm.update_user_defined_controllers()
+            for shift in (1, 2, 5):
+                for i in range(k):
+                    mm.mappings.values[i] = mm.Mapping((1, (i + shift) % max(1, len(t.controllers))))
+                mm.update_user_defined_controllers()
+            mm.user_defined_controllers = max(0, k // 2)
+            mm.update_user_defined_controllers()
+            mm.user_defined_controllers = k
+            mm.update_user_defined_controllers()
+            for i in range(0, k, 2):
+                mm.mappings.values[i] = mm.Mapping((0, 0))
+            mm.update_user_defined_controllers()
+            res.count("metamodule_remapping_rounds")
+        except Exception:
+            res.count("metamodule_remapping_raised")
+    # labelled MetaModule controllers used through their `u_<label>` attribute names (assignments included)
+    from . import aliasprobe
+    from .runner import Result
+    scratch = Result()
+    aliasprobe.run(scratch, "X", random.Random(seed), 20 if tier == "quick" else 120, domain=True, pairs=True)
+    res.count("hostile_alias_assignments", scratch.counters.get("alias_assignments", 0))
     per = 6 if tier == "quick" else 40
     n = 0
     for raw in sources:
